@@ -19,8 +19,8 @@ mcMsgKinds == { [key |-> "", attrs |-> <<>>], [key |-> "K", attrs |-> <<>>], [ke
 mcPrefixPairs == {}
 mcProjOfName == <<>>
 mcOps == {"Publish", "Pull", "Ack", "ModAck", "Nack", "SeekTime", "DLSweep", "Tick",
-          "PruneCompletedDeliveries", "PruneExpiredDeliveries", "PruneCompletedMessages", "StreamAN"}
+          "PruneCompletedDeliveries", "PruneExpiredDeliveries", "PruneCompletedMessages", "StreamAN", "RacePull"}
 W0 == [op \in mcOps |-> 1]
-mcWeights == [W0 EXCEPT !["Publish"] = 8, !["Pull"] = 12, !["Ack"] = 8, !["ModAck"] = 2, !["Nack"] = 2, !["StreamAN"] = 4,
+mcWeights == [W0 EXCEPT !["Publish"] = 8, !["Pull"] = 12, !["Ack"] = 8, !["ModAck"] = 2, !["Nack"] = 2, !["StreamAN"] = 4, !["RacePull"] = 4,
                         !["Tick"] = 5]
 =============================================================================
